@@ -113,6 +113,7 @@ type AEvent struct {
 	Site   *ssa.Call
 	Conds  []string             // branch conditions assumed up to the call
 	Facts  map[string][2]uint64 // value ranges of sources established by those branches
+	Index  int                  // position of this event in the trace of its path
 	Stop   bool                 // set by OnCall: end this path here (the outcome is marked Stopped)
 	Ret    AVal                 // what the call was replaced by
 }
@@ -122,10 +123,19 @@ type AMem struct {
 	havoc map[string]bool // prefixes whose unwritten cells are unknown
 	fresh map[string]bool // objects allocated by the analysed code (zero-initialised)
 	from  map[string]int  // base -> first index whose cells are unknown (copy of unknown length)
-	// Tails: base -> the elements from index From on are the elements Src[SrcLo..] of a slice the
-	// analysed code never wrote (a copy/append of unknown length)
-	Tails map[string]ATail
+	// Seqs: base -> what follows the known prefix base[0..from): a sequence of segments, each the
+	// elements Src[SrcLo..] of another object (all of them, their number is not known) or a run of
+	// known elements whose position is not known (copy/append of unknown length)
+	Seqs map[string][]ASeg
 	ver   map[string]int // object -> number of times (part of) it was written or forgotten
+}
+
+// ASeg is one segment of a sequence of unknown total length.
+type ASeg struct {
+	Src   string // all elements of object Src from SrcLo on (as they were at version Ver) …
+	SrcLo int
+	Ver   int
+	Cells []AVal // … or these elements
 }
 
 type ATail struct {
@@ -135,8 +145,11 @@ type ATail struct {
 	Ver   int // version of Src (see AMem.Version) when the elements were taken
 }
 
+// NewMem returns an empty abstract memory (for rules that pre-populate it).
+func NewMem() *AMem { return newMem() }
+
 func newMem() *AMem {
-	return &AMem{cells: map[string]AVal{}, havoc: map[string]bool{}, fresh: map[string]bool{}, from: map[string]int{}, Tails: map[string]ATail{}, ver: map[string]int{}}
+	return &AMem{cells: map[string]AVal{}, havoc: map[string]bool{}, fresh: map[string]bool{}, from: map[string]int{}, Seqs: map[string][]ASeg{}, ver: map[string]int{}}
 }
 
 func (m *AMem) clone() *AMem {
@@ -153,8 +166,8 @@ func (m *AMem) clone() *AMem {
 	for k, v := range m.from {
 		n.from[k] = v
 	}
-	for k, v := range m.Tails {
-		n.Tails[k] = v
+	for k, v := range m.Seqs {
+		n.Seqs[k] = v
 	}
 	for k, v := range m.ver {
 		n.ver[k] = v
@@ -180,7 +193,7 @@ func (m *AMem) bump(path string) {
 
 // Untouched reports that the analysed code never wrote below base (nor handed it to a callee that may).
 func (m *AMem) Untouched(base string) bool {
-	if _, ok := m.Tails[base]; ok {
+	if _, ok := m.Seqs[base]; ok {
 		return false
 	}
 	for h := range m.havoc {
@@ -189,6 +202,77 @@ func (m *AMem) Untouched(base string) bool {
 		}
 	}
 	return m.untouched(base)
+}
+
+// Tail: when the unknown part of base is exactly "all of one other object", that object.
+func (m *AMem) Tail(base string) (ATail, bool) {
+	sq := m.Seqs[base]
+	if len(sq) != 1 || sq[0].Cells != nil {
+		return ATail{}, false
+	}
+	return ATail{From: m.from[base], Src: sq[0].Src, SrcLo: sq[0].SrcLo, Ver: sq[0].Ver}, true
+}
+
+// Seq returns the known prefix length and the segments that follow it.
+func (m *AMem) Seq(base string) (int, []ASeg) { return m.from[base], m.Seqs[base] }
+
+// describe splits the content of a slice value into known leading elements and the segments
+// of unknown length that follow.
+func (m *AMem) describe(v AVal, et types.Type) (prefix []AVal, segs []ASeg, ok bool) {
+	switch v.K {
+	case ANil:
+		return nil, nil, true
+	case AStr:
+		if v.IsConst {
+			for i := 0; i < len(v.Const); i++ {
+				prefix = append(prefix, AVal{K: AInt, Bits: constBits(uint64(v.Const[i]), 8)})
+			}
+			return prefix, nil, true
+		}
+		if v.Lo < 0 {
+			return nil, nil, false
+		}
+		if v.Len >= 0 {
+			for i := 0; i < v.Len; i++ {
+				prefix = append(prefix, m.Load(fmt.Sprintf("%s[%d]", v.Path, v.Lo+i), et))
+			}
+			return prefix, nil, true
+		}
+		return nil, []ASeg{{Src: v.Path, SrcLo: v.Lo, Ver: m.ver[v.Path]}}, true
+	case ASlice:
+		if v.Lo < 0 {
+			return nil, nil, false
+		}
+		if v.Len >= 0 {
+			for i := 0; i < v.Len; i++ {
+				prefix = append(prefix, m.Load(fmt.Sprintf("%s[%d]", v.Path, v.Lo+i), et))
+			}
+			return prefix, nil, true
+		}
+		if k, has := m.from[v.Path]; has {
+			sq, hasS := m.Seqs[v.Path]
+			if hasS && v.Lo > k {
+				return nil, nil, false
+			}
+			for i := v.Lo; i < k; i++ {
+				prefix = append(prefix, m.Load(fmt.Sprintf("%s[%d]", v.Path, i), et))
+			}
+			if hasS {
+				return prefix, append([]ASeg(nil), sq...), true
+			}
+			// unknown from k on (rewritten by a callee): the current content of the object itself
+			lo := v.Lo
+			if lo < k {
+				lo = k
+			}
+			return prefix, []ASeg{{Src: v.Path, SrcLo: lo, Ver: m.ver[v.Path]}}, true
+		}
+		if m.isFresh(v.Path) || m.havoc[v.Path+"["] {
+			return nil, nil, false
+		}
+		return nil, []ASeg{{Src: v.Path, SrcLo: v.Lo, Ver: m.ver[v.Path]}}, true
+	}
+	return nil, nil, false
 }
 
 // tailOf describes "the elements of src from its start" as a tail beginning at index from.
@@ -927,6 +1011,19 @@ func (ex *Exec) refine(t, f *astate, fr *aframe, cond ssa.Value) {
 		}
 		return
 	}
+	if (bo.Op == token.EQL || bo.Op == token.NEQ) && l.K == AStr && r.K == AStr && (l.IsConst != r.IsConst) {
+		// s == "" / s != "" for a named string
+		k, x := l, r
+		if r.IsConst {
+			k, x = r, l
+		}
+		if k.Const == "" && x.Path != "" {
+			t.nils, f.nils = cloneNils(t.nils), cloneNils(f.nils)
+			t.nils["empty:"+x.Path] = bo.Op == token.EQL
+			f.nils["empty:"+x.Path] = bo.Op != token.EQL
+		}
+		return
+	}
 	if l.K != AInt || r.K != AInt {
 		return
 	}
@@ -1208,7 +1305,7 @@ func (ex *Exec) tryMerge(s *astate, fr *aframe, c Bit) bool {
 	}
 	tf, ff := t.frames[depth-1], f.frames[depth-1]
 	// memory
-	if !sameKeys(t.mem.havoc, f.mem.havoc) || !sameKeys(t.mem.from, f.mem.from) || !sameKeys(t.mem.Tails, f.mem.Tails) {
+	if !sameKeys(t.mem.havoc, f.mem.havoc) || !sameKeys(t.mem.from, f.mem.from) || !sameKeys(t.mem.Seqs, f.mem.Seqs) {
 		return false
 	}
 	merged := t.mem.clone()
@@ -2162,7 +2259,7 @@ func (ex *Exec) call(s *astate, fr *aframe, x *ssa.Call) (bool, error) {
 		return false, nil
 	}
 	if ex.OnCall != nil {
-		ev := &AEvent{Callee: name, Fn: callee, Args: args, Mem: s.mem.clone(), Site: x, Conds: append([]string(nil), s.conds...), Facts: map[string][2]uint64{}}
+		ev := &AEvent{Callee: name, Fn: callee, Args: args, Mem: s.mem.clone(), Site: x, Conds: append([]string(nil), s.conds...), Facts: map[string][2]uint64{}, Index: len(s.trace)}
 		for k, v := range s.facts {
 			ev.Facts[k] = v
 		}
@@ -2299,10 +2396,16 @@ func (ex *Exec) builtin(s *astate, fr *aframe, x *ssa.Call, name string, args []
 					return AVal{K: AInt, Bits: constBits(uint64(n), 64)}
 				}
 				if d.Lo >= 0 {
+					pre, segs, okD := s.mem.describe(src, elemType(x.Call.Args[0].Type()))
 					s.mem.HavocFrom(d.Path, d.Lo)
-					delete(s.mem.Tails, d.Path)
-					if src.K == ASlice && src.Lo >= 0 {
-						s.mem.Tails[d.Path] = s.mem.tailOf(d.Lo, src)
+					delete(s.mem.Seqs, d.Path)
+					if okD {
+						et := elemType(x.Call.Args[0].Type())
+						for i, v := range pre {
+							s.mem.Store(fmt.Sprintf("%s[%d]", d.Path, d.Lo+i), v, et)
+						}
+						s.mem.from[d.Path] = d.Lo + len(pre)
+						s.mem.Seqs[d.Path] = segs
 					}
 				} else {
 					s.mem.Havoc(d.Path + "[")
@@ -2314,60 +2417,40 @@ func (ex *Exec) builtin(s *astate, fr *aframe, x *ssa.Call, name string, args []
 		if len(args) == 2 {
 			a, b := args[0], args[1]
 			et := elemType(x.Type())
-			an, bn := -1, -1
-			if a.K == ANil {
-				an = 0
-			} else if a.K == ASlice && a.Lo >= 0 {
-				an = a.Len
-			}
-			if b.K == ANil {
-				bn = 0
-			} else if (b.K == ASlice && b.Lo >= 0) || (b.K == AStr && (b.IsConst || b.Lo >= 0)) {
-				bn = b.Len
-			}
 			s.serial++
 			nm := fmt.Sprintf("local:%s.append#%d", fr.fn.Name(), s.serial)
-			if an >= 0 && bn >= 0 && et != nil {
-				s.mem.fresh[nm] = true
-				for i := 0; i < an; i++ {
-					s.mem.Store(fmt.Sprintf("%s[%d]", nm, i), s.mem.Load(fmt.Sprintf("%s[%d]", a.Path, a.Lo+i), et), et)
-				}
-				for i := 0; i < bn; i++ {
-					var v AVal
-					if b.K == AStr && b.IsConst {
-						v = AVal{K: AInt, Bits: constBits(uint64(b.Const[i]), 8)}
-					} else {
-						v = s.mem.Load(fmt.Sprintf("%s[%d]", b.Path, b.Lo+i), et)
-					}
-					s.mem.Store(fmt.Sprintf("%s[%d]", nm, an+i), v, et)
-				}
-				return AVal{K: ASlice, Path: nm, Lo: 0, Len: an + bn}
+			pa, sa, okA := s.mem.describe(a, et)
+			pb, sb, okB := s.mem.describe(b, et)
+			if !okA || !okB || et == nil {
+				s.mem.havoc[nm] = true
+				return AVal{K: ASlice, Path: nm, Lo: 0, Len: -1}
 			}
-			if an >= 0 && et != nil {
-				// known prefix, unknown tail
-				s.mem.fresh[nm] = true
-				for i := 0; i < an; i++ {
-					s.mem.Store(fmt.Sprintf("%s[%d]", nm, i), s.mem.Load(fmt.Sprintf("%s[%d]", a.Path, a.Lo+i), et), et)
+			s.mem.fresh[nm] = true
+			prefix := pa
+			var segs []ASeg
+			if len(sa) == 0 {
+				prefix = append(append([]AVal(nil), pa...), pb...)
+				segs = sb
+			} else {
+				segs = append(segs, sa...)
+				if len(pb) > 0 {
+					segs = append(segs, ASeg{Cells: pb})
 				}
-				s.mem.from[nm] = an
-				if b.K == ASlice && b.Lo >= 0 {
-					// a source that is itself "known prefix + tail" contributes its prefix as cells
-					if k, has := s.mem.from[b.Path]; has && b.Lo == 0 {
-						if bt, hasT := s.mem.Tails[b.Path]; hasT && bt.From == k {
-							for i := 0; i < k; i++ {
-								s.mem.Store(fmt.Sprintf("%s[%d]", nm, an+i), s.mem.Load(fmt.Sprintf("%s[%d]", b.Path, i), et), et)
-							}
-							s.mem.from[nm] = an + k
-							s.mem.Tails[nm] = ATail{From: an + k, Src: bt.Src, SrcLo: bt.SrcLo, Ver: bt.Ver}
-							return AVal{K: ASlice, Path: nm, Lo: 0, Len: -1, LenName: fmt.Sprintf("(%d+len(%s))", an, argName(b))}
-						}
-					}
-					s.mem.Tails[nm] = s.mem.tailOf(an, b)
-				}
-				return AVal{K: ASlice, Path: nm, Lo: 0, Len: -1, LenName: fmt.Sprintf("(%d+len(%s))", an, argName(b))}
+				segs = append(segs, sb...)
 			}
-			s.mem.havoc[nm] = true
-			return AVal{K: ASlice, Path: nm, Lo: 0, Len: -1}
+			for i, v := range prefix {
+				s.mem.Store(fmt.Sprintf("%s[%d]", nm, i), v, et)
+			}
+			if len(segs) == 0 {
+				return AVal{K: ASlice, Path: nm, Lo: 0, Len: len(prefix)}
+			}
+			s.mem.from[nm] = len(prefix)
+			s.mem.Seqs[nm] = segs
+			ln := ""
+			if len(sa) == 0 && len(sb) == 1 && sb[0].Cells == nil {
+				ln = fmt.Sprintf("(%d+len(%s))", len(pa), argName(b))
+			}
+			return AVal{K: ASlice, Path: nm, Lo: 0, Len: -1, LenName: ln}
 		}
 	case "min", "max":
 		if len(args) == 2 {
